@@ -486,7 +486,10 @@ func (x *Unit) interiorAddr(st *State, lv *LV, n ast.Node) T {
 	if lv != nil {
 		switch lv.kind {
 		case lvHeap:
-			return x.uf("addr_"+mangle(lv.key), SInt, lv.ref)
+			if strings.HasPrefix(lv.key, "struct:") {
+				return lv.ref // an inline object is addressed by its derived reference
+			}
+			return x.fieldAddr(lv.key, lv.ref)
 		case lvVar:
 			if ref, ok := x.boxed[lv.obj]; ok {
 				return ref
@@ -663,18 +666,29 @@ func (x *Unit) freshResults(st *State, sig *types.Signature, base string) []Val 
 }
 
 func (x *Unit) havocPointee(st *State, p Val, elem types.Type) {
-	if stt, name, _ := structOfType(p.Typ); stt != nil && !isNamed(elem, "time", "Time") {
-		for i := 0; i < stt.NumFields(); i++ {
-			f := stt.Field(i)
-			key := name + "." + f.Name()
-			srt := x.u.SortOf(f.Type())
-			h := x.heapGet(st, key, ArraySort(SInt, srt))
-			st.heap[key] = x.define("H_"+key, Store(h, p.T, x.fresh("hv_"+f.Name(), srt)))
-		}
+	if isFlatStruct(elem) {
+		x.havocStructAt(st, p.T, elem, 0)
 		return
 	}
 	lv := x.derefLV(p, elem)
 	x.writeLV(st, lv, Val{x.fresh("hv", lv.srt), elem})
+}
+
+func (x *Unit) havocStructAt(st *State, p T, t types.Type, depth int) {
+	stt, name, _ := structOfType(types.NewPointer(t))
+	for i := 0; i < stt.NumFields(); i++ {
+		f := stt.Field(i)
+		key := name + "." + f.Name()
+		if isFlatStruct(f.Type()) {
+			if depth < 4 {
+				x.havocStructAt(st, x.fieldAddr(key, p), f.Type(), depth+1)
+			}
+			continue
+		}
+		srt := x.u.SortOf(f.Type())
+		h := x.heapGet(st, key, ArraySort(SInt, srt))
+		st.heap[key] = x.define("H_"+key, Store(h, p, x.fresh("hv_"+f.Name(), srt)))
+	}
 }
 
 // ---------- inlining
@@ -946,6 +960,9 @@ func (x *Unit) applyContract(st *State, b *Block, pc *preparedCall, recvName str
 	var results []Val
 	if b.Flags["pure"] && sig != nil && sig.Results().Len() > 0 {
 		var as []T
+		if pc.funVal != nil {
+			as = append(as, pc.funVal.T)
+		}
 		if pc.recv != nil {
 			as = append(as, pc.recv.T)
 		}
@@ -956,6 +973,9 @@ func (x *Unit) applyContract(st *State, b *Block, pc *preparedCall, recvName str
 			rt := sig.Results().At(i).Type()
 			srt := x.u.SortOf(rt)
 			name := fmt.Sprintf("pure_%s_%d", mangle(b.PkgPath+"."+b.Key), i)
+			if pc.funVal != nil && i == 0 {
+				name = applyName(as, srt)
+			}
 			var r T
 			if len(as) == 0 {
 				x.u.DeclFun(name, "() "+string(srt))
@@ -986,6 +1006,9 @@ func (x *Unit) applyContract(st *State, b *Block, pc *preparedCall, recvName str
 		// result is a newly allocated reference
 		r := x.alloc(st)
 		x.assume(st, Eq(results[0].T, r))
+	}
+	for _, cl := range b.ClausesOf("let") {
+		names[cl.GhostName] = x.specEval(st, cl.Expr, c)
 	}
 	for _, cl := range b.ClausesOf("ensures") {
 		x.assume(st, x.specEval(st, cl.Expr, c).T)
@@ -1054,7 +1077,9 @@ func (x *Unit) atCall(st *State, pc *preparedCall, shortName, funText string) {
 		}
 		x.atSeen[i]++
 		c := x.bodySpecCtx(st, pc.call)
-		c.names = names
+		for k, v := range names {
+			c.names[k] = v
+		}
 		c.args = args
 		g := x.specEval(st, cl.Expr, c)
 		if cl.AtAction == "assert" {
